@@ -151,6 +151,31 @@ int main(int argc, char **argv) {
             }
         }
     }
+    // ---- the list variants: isScalable(list, list) is the conjunction of the pairwise answers (false for lists of
+    //      different lengths); isSetAtSamePos(list, list) compares emptiness position by position ----
+    if (vf::take_case(idx++)) {
+        vf::case_desc("isScalable / isSetAtSamePos over unit lists of length 0..3");
+        const std::vector<std::string> pool = {"ms", "s", "kV", "mV", "mol", "foo", "", "m^2", "mm^2"};
+        std::vector<std::vector<std::string>> lists = {{}};
+        for (auto &a : pool) { lists.push_back({a}); for (auto &b2 : pool) { lists.push_back({a, b2}); } }
+        for (size_t i = 0; i < pool.size(); i += 2) for (size_t j = 0; j < pool.size(); j++) for (size_t k = 1; k < pool.size(); k += 3) lists.push_back({pool[i], pool[j], pool[k]});
+        for (auto &A : lists) for (auto &Bl : lists) {
+            bool want = A.size() == Bl.size(), wantset = A.size() == Bl.size();
+            for (size_t k = 0; want && k < A.size(); k++) want = util::isScalable(A[k], Bl[k]);
+            for (size_t k = 0; wantset && k < A.size(); k++) wantset = A[k].empty() == Bl[k].empty();
+            bool got = util::isScalable(A, Bl), gotset = util::isSetAtSamePos(A, Bl);
+            vf::count("pairs_checked", 2);
+            vf::distinct("outcomes", std::string("lists|") + std::to_string(A.size()) + std::to_string(Bl.size()) + (got ? "|scalable" : "|not") + (gotset ? "|same" : "|other"));
+            if (got != want) {
+                size_t bad = A.size(); for (size_t k = 0; k < A.size() && k < Bl.size(); k++) if (!util::isScalable(A[k], Bl[k])) { bad = k; break; }
+                vf::violation(std::string("C18|isScalable(list,list)|") + (A.size() != Bl.size() ? "lists of different lengths" : bad + 1 == A.size() ? "offending pair last" : bad < A.size() ? "offending pair not last" : "all pairs scalable") + "|equals the conjunction of the pairwise answers|" + (got ? "true" : "false"),
+                              "isScalable(" + vf::jvecs(A) + ", " + vf::jvecs(Bl) + ") = " + (got ? "true" : "false"));
+            }
+            if (gotset != wantset)
+                vf::violation(std::string("C18|isSetAtSamePos(list,list)|") + (A.size() != Bl.size() ? "lists of different lengths" : "same length") + "|compares emptiness position by position|" + (gotset ? "true" : "false"),
+                              "isSetAtSamePos(" + vf::jvecs(A) + ", " + vf::jvecs(Bl) + ") = " + (gotset ? "true" : "false"));
+        }
+    }
     vf::note("cross_base_prefixes", std::to_string(pre.size()));
     return vf::finish();
 }
